@@ -45,6 +45,17 @@ type Pipe chan Item
 
 type Quad [4]Dur
 
+// Maß: exported fields and a type name that do not start with an ASCII letter (exported is decided by Unicode upper
+// case, not by A–Z), next to an unexported field that starts with a non-ASCII lower-case letter.
+type Maß struct {
+	Länge float64
+	Ärmel int
+	Ωmega string
+	Номер []int
+	étage int
+	X     *Maß
+}
+
 // Sub and In are the workhorses of the value-literal checks.
 type Sub struct {
 	A int
